@@ -1,5 +1,5 @@
 (* C08 — the node tree stays structurally consistent under any sequence of edits. *)
-From Odf Require Import model.Base model.Dom proofs.DomProofs.
+From Odf Require Import model.Base model.Dom model.DomCheck proofs.DomProofs proofs.IndexProofs proofs.DomCheckProofs.
 
 (* Consistent: every node listed among a parent's children has that parent and vice versa, each once;
    previous/next links follow the child order; a detached node has no siblings; childless kinds have no
@@ -42,3 +42,9 @@ Theorem C08_move_to_end : forall h p c h', Consistent (nodes h) -> c <> p ->
   append_child h p c = ROk h' -> exists ks, kids (nodes h' p) = ks ++ [c].
 Proof. exact append_child_last. Qed.
 Print Assumptions C08_move_to_end.
+
+(* ... and from any snapshot of a real document that the executable checker accepts (the harness runs wf_ok on the
+   snapshot every history starts from): the checker is sound *)
+Theorem C08_checked_start : forall l ed sd, wf_ok l = true -> WF (lheap l ed sd).
+Proof. exact wf_checked. Qed.
+Print Assumptions C08_checked_start.
